@@ -195,3 +195,39 @@ pub fn message_class(m: &str) -> &'static str {
         "other"
     }
 }
+
+/// Display under a width / alignment / fill / sign / zero / alternate format specification: an
+/// impl may ignore the specification or pad the *whole* text, but the text itself must stay what
+/// `to_string()` gives. Returns a description of the first specification whose output, with the
+/// fill stripped from both ends, is not the plain text.
+pub fn fmt_spec_mismatch<T: std::fmt::Display>(x: &T) -> Option<String> {
+    let plain = x.to_string();
+    let w = plain.chars().count();
+    let mut outs: Vec<(String, String, char)> = vec![];
+    for width in [0usize, w.saturating_sub(1), w, w + 1, w + 9] {
+        outs.push((format!("{{:{}}}", width), format!("{:width$}", x, width = width), ' '));
+        outs.push((format!("{{:<{}}}", width), format!("{:<width$}", x, width = width), ' '));
+        outs.push((format!("{{:>{}}}", width), format!("{:>width$}", x, width = width), ' '));
+        outs.push((format!("{{:^{}}}", width), format!("{:^width$}", x, width = width), ' '));
+        outs.push((format!("{{:*^{}}}", width), format!("{:*^width$}", x, width = width), '*'));
+        outs.push((format!("{{:é>{}}}", width), format!("{:é>width$}", x, width = width), 'é'));
+        outs.push((format!("{{:0{}}}", width), format!("{:0width$}", x, width = width), '0'));
+    }
+    outs.push(("{:+}".into(), format!("{:+}", x), ' '));
+    outs.push(("{:#}".into(), format!("{:#}", x), ' '));
+    for (spec, out, fill) in outs {
+        if out == plain {
+            continue;
+        }
+        // padding outside the text only (a text that itself starts or ends with the fill
+        // character is compared through containment of the plain text at the right place)
+        let ok = out.len() >= plain.len() && out.contains(&plain) && {
+            let at = out.find(&plain).unwrap();
+            out[..at].chars().all(|c| c == fill) && out[at + plain.len()..].chars().all(|c| c == fill)
+        };
+        if !ok {
+            return Some(format!("format!(\"{}\", x) = {:?} but to_string() = {:?}", spec, out, plain));
+        }
+    }
+    None
+}
